@@ -175,7 +175,7 @@ def baseline(items):
                 pass
 
 
-OPS = ["generate", "generate", "generate", "generate", "generate", "sys_observe", "sys_observe", "generate_global", "str", "noext", "elements_mutate", "mirror_mutate", "mirror_generate", "mirror_generate", "reaction_graph", "atom_graph", "ensemble_prob", "forcefield", "fail_then_retry", "deepcopy", "reparse", "perturb_global", "generable"]
+OPS = ["generate", "generate", "generate", "generate", "generate", "sys_observe", "sys_observe", "generate_global", "str", "noext", "elements_mutate", "mirror_mutate", "mirror_generate", "mirror_generate", "reaction_graph", "atom_graph", "ensemble_prob", "forcefield", "fail_then_retry", "fault_then_retry", "deepcopy", "reparse", "perturb_global", "generable"]
 
 
 def run_case(case):
@@ -436,6 +436,21 @@ def run_case(case):
                 except Exception:
                     cnt["failed_generations"] += 1
                 compare_generation(obj, i, s, step, "retry after a failed generation")
+            elif op == "fault_then_retry":
+                # fault injection at the generator interface: the k-th variate / choice request raises (as scipy's quantile search sporadically does
+                # inside a draw); the generation breaks off mid-way, a retry must be unaffected and the object unchanged
+                from ..monitors.rng import FaultRNG
+
+                fr = FaultRNG(s + 5, rng.randint(1, 8))
+                try:
+                    with time_limit(15):
+                        obj.generate(rng=fr)
+                except StepTimeout:
+                    raise
+                except BaseException:
+                    pass
+                cnt["injected_faults"] += int(fr.fired)
+                compare_generation(obj, i, s, step, "retry after a generation that broke off (injected fault)")
             elif op == "deepcopy":
                 c = copy.deepcopy(obj)
                 compare_generation(c, i, s, step, "generation from a deep copy")
